@@ -15,6 +15,7 @@
  R7 carried state: a model attribute computed from its own previous value inside a per-level / per-estimand step (memo, accumulator)
     must not depend on a parameter that varies with the request (level, estimand, aggregate, or anything a caller derives from them,
     e.g. the conformal training fraction) unless it is stored under that parameter.
+ R9 the unit frames handed to the model steps inside the client's loops are loop-invariant (no value carried over from an earlier iteration);
  R8 the interval columns of one level are filled from that level's intervals alone (restated from C02.R5).
 """
 from __future__ import annotations
@@ -31,6 +32,28 @@ from .c01 import MR, merge_keys
 CLIENT = "elexmodel.client"
 FIXED_NAME_OK = {"pred_turnout": "two-party turnout prediction: produced for the margin estimand only (single writer)"}
 LOOP_STEPS = ("get_unit_predictions", "get_unit_prediction_intervals", "get_aggregate_predictions", "get_aggregate_prediction_intervals")
+
+
+def _loop_invariant_frames(ctx):
+    """R9: inside the client's estimand / level / aggregate loops the unit frames handed to a model step are the same objects in every
+    iteration: no frame argument is a value carried over from an earlier iteration (a local narrowed for one aggregate and never reset
+    makes every later table - the contest-level one the national summary reads included - depend on the order of the request)."""
+    ge = ctx.fn(CLIENT, "ModelClient.get_estimates")
+    gs = ctx.builder(inline=lambda *a: False).summarize(ge)
+    seen, n = [], 0
+    for t in [t for _, _, t, _ in gs.assigns] + [t for _, t, _ in gs.effects]:
+        for x in ir.walk(t):
+            if x[0] == "call" and x[1][0] == "attr" and x[1][2] in LOOP_STEPS and x not in seen:
+                seen.append(x)
+                nfr = 2 if x[1][2].startswith("get_unit") else 3
+                for i, a in enumerate(x[2][:nfr]):
+                    n += 1
+                    carried = [y for y in ir.walk(a) if y[0] == "loopin"]
+                    ctx.ob("C13.R9.frames", f"{ge.qualname}|{x[1][2]} frame argument {i} is the same in every iteration", not carried, ge.where(),
+                           "the frame does not depend on earlier iterations of the request loops" if not carried
+                           else f"frame argument {i} of {x[1][2]} is {ir.show(a, maxdepth=3)[:120]}: its value is carried over from an earlier iteration of "
+                                "the loop, so a table depends on which tables were computed before it")
+    ctx.sites("C13.R9", n, 8, "unit-frame arguments of the model steps in the client's loops")
 
 
 def check(ctx):
@@ -54,6 +77,7 @@ def check(ctx):
     _generators(ctx)
     _column_writes(ctx)
     _carried_state(ctx)
+    _loop_invariant_frames(ctx)
     # R8: the columns of one interval level are filled from the intervals of THAT level alone (restated from C02.R5: lower_<a>_<e> is
     # element 0 / .lower of intervals[a]); a value combined across the requested levels (a hull, a running extreme) makes the level-a
     # columns depend on which other levels were asked for
